@@ -16,7 +16,10 @@ What is proved here and what is not
 * **Transfer curves over ℝ** (the curves the f32 kernels approximate): inverse and monotone for
   the power-law family at full strength where true, the exact sliver where it is false is
   proved false (`C19_tf_srgb_encode_not_monotone`, `C19_tf_bt709_decode_not_monotone`), PQ inverse
-  and encode-monotone in full, HLG piecewise (`…_partial`).
+  and encode-monotone in full; HLG decided at its breakpoints: the round trip is the identity
+  exactly off a 9.8e-9 wide sliver above 1/12 (`C19_tf_inverse_hlg_iff`, proved false on the sliver,
+  within 2e-8 everywhere), the encoder is proved *not* monotone (`C19_tf_hlg_encode_not_monotone`),
+  the decoder monotone.
 * **Not proved** (measured by the correspondence run, see `tools/props/c19.py`): anything about
   the `f32` kernels and the `f32` chromaticity arithmetic (Bradford adaptation, matrix inverse,
   `1e-4` matching on floats). The claim "custom xy within 1e-4" is *false* on the full field
@@ -260,7 +263,8 @@ theorem C19_tf_monotone_pq_encode : Monotone (pqEncodePos : ℝ → ℝ) := pqEn
 Proved: the square-root piece `[0, 1/12]` unconditionally; the logarithmic piece under the
 hypothesis that the encoded value exceeds the decoder's breakpoint 0.5. Missing: that hypothesis
 for `x` just above `1/12` needs a numeric bound on `ln(1 − 0.28466892)` (the constants make the
-pieces meet only up to ≈1e-8). -/
+pieces meet only up to ≈1e-8). Decided since: the hypothesis is *false* on a sliver above `1/12`,
+see `C19_tf_hlg_log_piece_gt_half_iff`, `C19_tf_inverse_hlg_iff` and the section below. -/
 theorem C19_tf_inverse_hlg_partial (x : ℝ) :
     (0 ≤ x → x ≤ 1 / 12 → hlgDecodePos (hlgEncodePos x) = x) ∧
     (1 / 12 < x → 0.5 < 0.17883277 * Real.log (12 * x - 0.28466892) + 0.5599107 →
@@ -268,7 +272,9 @@ theorem C19_tf_inverse_hlg_partial (x : ℝ) :
   ⟨hlg_inverse_sqrt x, hlg_inverse_log x⟩
 
 /-- Full statement: both HLG directions monotone on `[0, ∞)`. Proved: on each piece; the
-direction of the (≈1e-8) jump at the breakpoints is missing (same numeric bound as above). -/
+direction of the (≈1e-8) jump at the breakpoints is missing (same numeric bound as above).
+Decided since: the encoder jumps down (`C19_tf_hlg_encode_not_monotone`), the decoder up
+(`C19_tf_monotone_hlg_decode`). -/
 theorem C19_tf_monotone_hlg_partial :
     MonotoneOn (hlgEncodePos : ℝ → ℝ) (Set.Iic (1 / 12)) ∧
     MonotoneOn (hlgEncodePos : ℝ → ℝ) (Set.Ioi (1 / 12)) ∧
@@ -276,6 +282,113 @@ theorem C19_tf_monotone_hlg_partial :
     MonotoneOn (hlgDecodePos : ℝ → ℝ) (Set.Ioi 0.5) :=
   ⟨hlgEncodePos_monotoneOn_sqrt, hlgEncodePos_monotoneOn_log, hlgDecodePos_monotoneOn_sq,
     hlgDecodePos_monotoneOn_exp⟩
+
+/-! ### HLG: what the constants of `tf.rs` really do at the breakpoints
+
+Decided numerically first (50-digit decimals), then proved. With `A = 0.17883277`,
+`B = 0.28466892`, `C = 0.5599107`:
+* the encoder's logarithmic piece just above `1/12` is `A·ln(1 − B) + C = 0.49999997047…`,
+  **below** 0.5 — the encoder jumps *down* by 2.95e-8 at `1/12`, so the hypothesis of
+  `C19_tf_inverse_hlg_partial` is **false** for `1/12 < x ≤ hlgGapEnd = (exp((0.5 − C)/A) + B)/12
+  = 0.0833333431765…` (a sliver 9.8e-9 wide) and true beyond;
+* the decoder's exponential piece just above 0.5 is `hlgGapEnd > 1/12` — the decoder jumps *up*.
+Hence: the full statements "`hlgDecodePos (hlgEncodePos x) = x` for `x ≥ 0`" and "the encoder is
+monotone on `[0, ∞)`" are both false and their negations are proved below with explicit
+witnesses; the strongest true statements are proved instead (exact characterisation of where the
+round trip is the identity, a `2e-8` bound everywhere, encoder monotone off the sliver, decoder
+monotone on all of `[0, ∞)`). The numeric bounds are Taylor polynomials of `exp` of degree 11 at
+rational points (`Real.exp_bound`), evaluated by `norm_num`.
+
+These are statements about the real-valued curves with the decimal constants as written in the
+source; the `f32` kernels (constants rounded to `f32`, `ln`/`exp` of libm) are measured by the
+correspondence run, not proved. -/
+
+/-- `exp((0.5 − 0.5599107)/0.17883277)` and the end of the sliver to ten digits. -/
+theorem C19_tf_hlg_breakpoint_numerics :
+    (0.71533119804 : ℝ) < Real.exp (-5991070 / 17883277) ∧
+    Real.exp (-5991070 / 17883277) < (0.71533119816 : ℝ) ∧
+    hlgGapEnd = (Real.exp ((0.5 - 0.5599107) / 0.17883277) + 0.28466892) / 12 ∧
+    (1 / 12 : ℝ) < 0.08333334317 ∧ 0.08333334317 < hlgGapEnd ∧ hlgGapEnd < 0.08333334318 := by
+  refine ⟨hlg_exp_enclosure.1, hlg_exp_enclosure.2, ?_, by norm_num, hlgGapEnd_bounds.1,
+    hlgGapEnd_bounds.2⟩
+  unfold hlgGapEnd
+  norm_num
+
+/-- The hypothesis left open in `C19_tf_inverse_hlg_partial`, decided: for `x > 1/12` the
+logarithmic piece exceeds the decoder's breakpoint exactly when `x > hlgGapEnd`. In particular it
+fails on `(1/12, 0.08333334317]` and holds on `[0.08333334318, ∞)`. -/
+theorem C19_tf_hlg_log_piece_gt_half_iff (x : ℝ) (hx : 1 / 12 < x) :
+    0.5 < 0.17883277 * Real.log (12 * x - 0.28466892) + 0.5599107 ↔ hlgGapEnd < x :=
+  hlg_log_gt_iff x hx
+
+/-- HLG OETF then inverse OETF on `x ≥ 0` is the identity **exactly** off the sliver
+`(1/12, hlgGapEnd]`. -/
+theorem C19_tf_inverse_hlg_iff (x : ℝ) (hx : 0 ≤ x) :
+    hlgDecodePos (hlgEncodePos x) = x ↔ (x ≤ 1 / 12 ∨ hlgGapEnd < x) :=
+  hlg_inverse_iff x hx
+
+/-- the same with an explicit rational threshold: inverse for `0 ≤ x ≤ 1/12` and for
+`x ≥ 0.08333334318` (`= 1/12 + 9.85e-9`) -/
+theorem C19_tf_inverse_hlg_off_sliver (x : ℝ) (h0 : 0 ≤ x)
+    (hx : x ≤ 1 / 12 ∨ 0.08333334318 ≤ x) : hlgDecodePos (hlgEncodePos x) = x :=
+  hlg_inverse_of_ge x h0 hx
+
+/-- Negation of the full statement `∀ x ≥ 0, hlgDecodePos (hlgEncodePos x) = x`, with a witness
+interval: on all of `(1/12, 0.08333334317]` the encoder already uses its logarithmic piece but the
+result is still `≤ 0.5`, so the decoder answers with its square piece. -/
+theorem C19_tf_inverse_hlg_false_on_sliver (x : ℝ) (h1 : 1 / 12 < x) (h2 : x ≤ 0.08333334317) :
+    hlgDecodePos (hlgEncodePos x) ≠ x :=
+  hlg_inverse_false_on_gap x h1 h2
+
+theorem C19_tf_inverse_hlg_not_exact :
+    ¬ ∀ x : ℝ, 0 ≤ x → hlgDecodePos (hlgEncodePos x) = x := fun h =>
+  hlg_inverse_false_on_gap 0.08333334 (by norm_num) (by norm_num) (h _ (by norm_num))
+
+/-- … but the round trip is within `2e-8` of the identity for every `x ≥ 0` (sliver included),
+and never above. -/
+theorem C19_tf_inverse_hlg_within_2e8 (x : ℝ) (hx : 0 ≤ x) :
+    hlgDecodePos (hlgEncodePos x) ≤ x ∧ x - 2e-8 ≤ hlgDecodePos (hlgEncodePos x) :=
+  hlg_inverse_approx x hx
+
+/-- the sign-symmetric kernels `linear_to_hlg` / `hlg_to_linear` (`copysign (f |x|) x`) on the
+whole line, off the two slivers -/
+theorem C19_tf_inverse_hlg_odd (x : ℝ) (hx : |x| ≤ 1 / 12 ∨ 0.08333334318 ≤ |x|) :
+    hlgDecode (hlgEncode x) = x :=
+  hlg_inverse_odd x hx
+
+/-- `linear_to_hlg` with the constants of the code is **not** monotone on `[0, ∞)`:
+`1/12 ↦ 0.5` but `0.08333334 ↦` less than `0.5` (the logarithmic piece starts 2.95e-8 below the
+end of the square-root piece). -/
+theorem C19_tf_hlg_encode_not_monotone : ¬ MonotoneOn (hlgEncodePos : ℝ → ℝ) (Set.Ici 0) :=
+  hlgEncodePos_not_monotoneOn
+
+/-- Full statement (false, see above): `MonotoneOn hlgEncodePos (Set.Ici 0)`. Proved: monotone
+on the union of the two pieces once the sliver `(1/12, hlgGapEnd]` is left out (and with
+`hlgGapEnd < 0.08333334318`, on `(-∞, 1/12] ∪ [0.08333334318, ∞)`). -/
+theorem C19_tf_monotone_hlg_encode_off_sliver :
+    MonotoneOn (hlgEncodePos : ℝ → ℝ) (Set.Iic (1 / 12) ∪ Set.Ioi hlgGapEnd) ∧
+    MonotoneOn (hlgEncodePos : ℝ → ℝ) (Set.Iic (1 / 12) ∪ Set.Ici 0.08333334318) := by
+  refine ⟨hlgEncodePos_monotoneOn_off_gap, hlgEncodePos_monotoneOn_off_gap.mono ?_⟩
+  apply Set.union_subset_union_right
+  intro y hy
+  exact lt_of_lt_of_le hlgGapEnd_bounds.2 hy
+
+/-- `hlg_to_linear` is monotone on all of `[0, ∞)`: its exponential piece starts above the end of
+its square piece (`hlgGapEnd > 1/12`). -/
+theorem C19_tf_monotone_hlg_decode : MonotoneOn (hlgDecodePos : ℝ → ℝ) (Set.Ici 0) :=
+  hlgDecodePos_monotoneOn
+
+/-- Where the sliver lies on the `f32` grid (spacing `2⁻²⁷` in `[1/16, 1/8)`): it contains exactly
+one `f32` value, `11184811·2⁻²⁷ = 0x3DAAAAAB`, which is the rounded `1.0 / 12.0` the code compares
+with — so the kernel sends it to the square-root piece (unlike the real curve with the exact
+`1/12`) — and the next `f32`, `11184812·2⁻²⁷`, is already beyond `hlgGapEnd` (by 9e-11). This is
+why the correspondence run sees no HLG inversion on the real kernels. (A fact about the real
+curve at these two rationals; nothing here is a statement about `f32` arithmetic.) -/
+theorem C19_tf_hlg_sliver_on_f32_grid :
+    (11184810 : ℝ) / 2 ^ 27 < 1 / 12 ∧ (1 / 12 : ℝ) < 11184811 / 2 ^ 27 ∧
+    (11184811 : ℝ) / 2 ^ 27 < hlgGapEnd ∧ hlgGapEnd < 11184812 / 2 ^ 27 := by
+  refine ⟨by norm_num, by norm_num, lt_trans (by norm_num) hlgGapEnd_bounds.1,
+    lt_trans hlgGapEnd_bounds.2 (by norm_num)⟩
 
 /-! ## non-vacuity -/
 
@@ -314,6 +427,15 @@ example : closeToInvGamma 4545455 (.gamma 21999969 false) := by unfold closeToIn
 example : gammaParam 4545455 true = .ok 144179 := by decide
 example : (1e-7 : ℝ) < 0.5 ∧ (0 : ℝ) < 0.4545455 ∧ (0.4545455 : ℝ) ≤ 1 := by norm_num
 example : |(-0.5 : ℝ)| ≤ 0.0031308 ∨ 0.00313081 ≤ |(-0.5 : ℝ)| := by
+  right; rw [abs_of_neg (by norm_num)]; norm_num
+/-- HLG: points on each side of the sliver and inside it meet the hypotheses -/
+example : (0 : ℝ) ≤ 0.05 ∧ ((0.05 : ℝ) ≤ 1 / 12 ∨ (0.08333334318 : ℝ) ≤ 0.05) := by
+  refine ⟨by norm_num, Or.inl (by norm_num)⟩
+example : (0 : ℝ) ≤ 0.5 ∧ ((0.5 : ℝ) ≤ 1 / 12 ∨ (0.08333334318 : ℝ) ≤ 0.5) := by
+  refine ⟨by norm_num, Or.inr (by norm_num)⟩
+example : (1 / 12 : ℝ) < 0.08333334 ∧ (0.08333334 : ℝ) ≤ 0.08333334317 := by
+  constructor <;> norm_num
+example : |(-0.5 : ℝ)| ≤ 1 / 12 ∨ 0.08333334318 ≤ |(-0.5 : ℝ)| := by
   right; rw [abs_of_neg (by norm_num)]; norm_num
 example : transformOps (.enum exEnc) (.enum exEnc) = some [] := by decide
 example : isEquivalent (.enum exEnc) (.enum { exEnc with tf := .linear }) = false := by decide
